@@ -33,3 +33,288 @@ info("C08",
      outside="axis lengths above 2^32 (quick) / 2^62 (thorough); for an inclusive end below -n the statement "
              "leaves open whether the end clamps to 'nothing' or to element 0, both are accepted",
      assumptions=["reference resolver (kani/src/c08.rs) is python slice.indices written in i128"])
+
+
+# ----------------------------------------------------------------------------------------------
+# C14
+# ----------------------------------------------------------------------------------------------
+@generator
+def gen_c14(ctx):
+    out = ["// generated: base64 instances by concrete length", "use crate::c14::*;", ""]
+
+    def h(name, body, tier, timeout, bounds, enc, unwind):
+        out.append("/// @tier %s @timeout %d\n/// @bounds %s\n/// @encodes %s\n#[cfg_attr(kani, kani::proof)]\n"
+                   "#[cfg_attr(kani, kani::unwind(%d))]\npub fn %s() {\n    %s\n}\n"
+                   % (tier, timeout, bounds, enc, unwind, name, body))
+
+    for n in range(0, 8):
+        for k1 in range(0, n + 1):
+            for k2 in range(k1, n + 1):
+                two_way = (k2 == n)
+                tier = "quick" if (n <= 6 and two_way) or (n <= 4) else "thorough"
+                h("c14_enc_n%d_%d_%d" % (n, k1, k2), "enc_case::<%d, %d, %d>()" % (n, k1, k2), tier, 120,
+                  "every byte string of length %d written as [..%d], [%d..%d], [%d..]" % (n, k1, k1, k2, k2),
+                  "encoder::Base64Encoder::write, encoder::Base64Encoder::finish", 14)
+    quick_sched = [(4, 4), (1, 1), (2, 2), (3, 3), (1, 3), (3, 1), (2, 1), (1, 2)]
+    all_sched = [(a, b) for a in (1, 2, 3, 4) for b in (1, 2, 3, 4)]
+    DEC = "decoder::Base64Decoder::read, decoder::Base64Decoder::buffer_fill, decode_u8x4, decode_size"
+
+    def dec(o, s_, m, bad, d, s0, s1, tier, timeout=300):
+        h("c14_dec_o%d_s%d_m%d_b%d_d%d_r%d%d" % (o, s_, m, bad, d, s0, s1),
+          "dec_case::<%d, %d, %d, %d, %d, %d, %d>()" % (o, s_, m, bad, d, s0, s1), tier, timeout,
+          "decoder state: %d pending bytes in the internal buffer (offset %d, size %d); reader holds RFC 4648 text of %d "
+          "symbolic bytes + %d extra characters; reader returns at most [%d,%d] bytes per read (cyclic); destination "
+          "buffer %d bytes; all byte values" % (s_ - o, o, s_, m, bad, s0, s1, d), DEC, max(s_ - o + m + 2, 6))
+
+    # fresh decoder, whole text through one large destination buffer, every read schedule
+    for m in range(0, 7):
+        for (s0, s1) in all_sched:
+            # m >= 2: the padding test `== b'='` is symbolic, buffer sizes become symbolic: 20 GB+ (thorough only)
+            dec(0, 0, m, 0, 16, s0, s1, "quick" if m <= 1 and (s0, s1) in quick_sched else "thorough", 300 if m <= 1 else 3000)
+    # small destination buffers (padding structure concrete: m <= 1) from several buffer states
+    for (o, s_) in ((0, 0), (0, 2), (1, 3), (0, 1)):
+        for m in (0, 1):
+            for d in (1, 2, 3):
+                for (s0, s1) in ((4, 4), (1, 1), (1, 3), (2, 1)):
+                    quick = (s0, s1) in ((4, 4), (1, 1)) and (o, s_) != (0, 1)
+                    dec(o, s_, m, 0, d, s0, s1, "quick" if quick else "thorough")
+    # small destination buffers with symbolic padding structure (expensive)
+    for m in (2, 3, 4):
+        for d in (1, 3):
+            dec(0, 0, m, 0, d, 4, 4, "thorough", 1800)
+    # bad length: never a silent truncation
+    for (o, s_) in ((0, 0), (0, 2), (1, 3)):
+        for m in (0, 1, 3):
+            for bad in (1, 2, 3):
+                for d in (1, 16):
+                    for (s0, s1) in ((4, 4), (1, 1)):
+                        if m == 3 and d == 1:
+                            continue
+                        quick = m <= 1 and (s0, s1) == (4, 4) and (o, s_) != (1, 3)
+                        dec(o, s_, m, bad, d, s0, s1, "quick" if quick else "thorough")
+    for t in (4, 8):
+        h("c14_total_t%d" % t, "dec_total_case::<%d>()" % t, "thorough", 3000,
+          "every text of %d arbitrary bytes, full reads" % t,
+          "decoder::Base64Decoder::read, decoder::Base64Decoder::buffer_fill, decode_u8x4", 8)
+    return {"c14_gen": "\n".join(out)}
+
+
+info("C14",
+     technique="Kani/CBMC bounded model checking of Base64Encoder/Base64Decoder against an RFC 4648 reference, "
+               "concrete lengths, symbolic bytes, symbolic write partition / read schedule / buffer size",
+     outside="inputs longer than 9 bytes (encoder) / 6 bytes (decoder round trip) / 8 text bytes (totality); the "
+             "48/64-byte internal buffer boundary; readers returning ErrorKind::Interrupted",
+     assumptions=["RFC 4648 reference encoder in kani/src/c14.rs"])
+
+
+# ----------------------------------------------------------------------------------------------
+# C16
+# ----------------------------------------------------------------------------------------------
+@generator
+def gen_c16(ctx):
+    out = ["// generated: IOQueue one-step instances by concrete representation shape", "use crate::c16::*;", ""]
+    for k in range(0, 4):
+        lens_list = [[]]
+        for _ in range(k):
+            lens_list = [l + [x] for l in lens_list for x in (0, 1, 2)]
+        for lens in lens_list:
+            l = lens + [0] * (3 - len(lens))
+            offs = [0] if (k == 0 or l[0] < 2) else [0, 1]
+            for off in offs:
+                rem = (l[0] - off) if k > 0 else 0
+                shape = "".join(str(x) for x in l[:k]) or "e"
+                quick_shape = (k, shape, off) in ((0, "e", 0), (1, "1", 0), (1, "2", 1), (2, "21", 1), (2, "20", 0),
+                                                  (2, "02", 0), (1, "0", 0))
+                ops = [(0, 1, "write1", "write of 1 symbolic byte"), (0, 2, "write2", "write of 2 symbolic bytes"),
+                       (1, 1, "flush1", "flush"), (1, 2, "flush2", "flush twice"),
+                       (4, 0, "cwerr", "consume_with whose consumer fails (EAGAIN)"), (6, 0, "drop", "clear_but_last")]
+                for a in range(0, rem + 1):
+                    ops.append((2, a, "consume%d" % a, "consume(%d)" % a))
+                    ops.append((3, a, "cw%d" % a, "consume_with accepting %d byte(s) (short write)" % a))
+                for a in range(0, 4):
+                    ops.append((5, a, "read%d" % a, "read into a %d byte buffer" % a))
+                for (op, arg, opname, opdesc) in ops:
+                    name = "c16_%s_k%d_%s_o%d" % (opname, k, shape, off)
+                    tier = "quick" if quick_shape else "thorough"
+                    out.append("/// @tier %s @timeout 300\n/// @bounds pre-state = %d chunk(s) of lengths %s, front offset %d, "
+                               "all byte values; operation: %s\n"
+                               "/// @encodes common::IOQueue::write, common::IOQueue::flush, common::IOQueue::consume, "
+                               "common::IOQueue::consume_with, common::IOQueue::read, common::IOQueue::clear_but_last, "
+                               "common::IOQueue::as_slice, common::IOQueue::len\n"
+                               "#[cfg_attr(kani, kani::proof)]\n#[cfg_attr(kani, kani::unwind(%d))]\npub fn %s() {\n"
+                               "    step_case::<%d, %d, %d, %d, %d, %d, %d>()\n}\n"
+                               % (tier, k, l[:k], off, opdesc, 21, name, k, l[0], l[1], l[2], off, op, arg))
+    return {"c16_gen": "\n".join(out)}
+
+
+info("C16",
+     technique="Kani/CBMC bounded model checking: one step of every IOQueue operation from every small valid "
+               "representation state, refinement to the readable byte sequence",
+     outside="UnixTerminal::poll / tty short writes and EAGAIN against a real tty (FFI, select); queues with more than "
+             "3 chunks or chunks longer than 2 bytes (the code treats chunks uniformly; the step covers every chunk "
+             "count that the operations distinguish: 0, 1, 2, more)",
+     assumptions=["representation invariant: length == sum(chunks) - offset and (offset == 0 or offset < |front|); "
+                  "the step harnesses show every operation preserves it, IOQueue::new() establishes it"])
+
+
+info("C05",
+     technique="Kani/CBMC bounded model checking of TTYEncoder::encode per command variant: emitted bytes are parsed "
+               "back by a harness-side ECMA-48/xterm reader and compared with the command for all parameter values",
+     outside="positions/counts above 99999; EightBit and Gray colour depths (f32 colour reduction, see C20); titles, "
+             "capability names and raw payloads longer than 3 bytes; Image/ImageErase (handled by the image handlers)",
+     assumptions=["harness-side reader implements ECMA-48 CSI/OSC/DCS syntax and the SGR semantics of ECMA-48 8.3.117 "
+                  "+ xterm/kitty extensions (38/48/58 with ; or : forms, 4:n underline styles)",
+                  "output sink is an infallible fixed array (write errors of the underlying tty are C16's subject)"])
+
+
+# ----------------------------------------------------------------------------------------------
+# C06
+# ----------------------------------------------------------------------------------------------
+@generator
+def gen_c06(ctx):
+    out = ["// generated: sgr_face against the reference SGR machine by parameter string length", "use crate::c06::*;", ""]
+    for n in range(0, 5):
+        tier = "quick" if n <= 2 else "thorough"
+        out.append("/// @tier %s @timeout %d\n/// @bounds every parameter string of length %d over [0-9:;] whose parameters the "
+                   "reference machine defines (no palette selection)\n"
+                   "/// @encodes decoder::sgr_face, decoder::sgr_color, decoder::number_decode, decoder::GraphicRenditionMatcher::decode, face::FaceModify::apply\n"
+                   "#[cfg_attr(kani, kani::proof)]\n#[cfg_attr(kani, kani::unwind(12))]\npub fn c06_sgr_face_len%d() {\n"
+                   "    sgr_face_case::<%d>()\n}\n" % (tier, 600 if n <= 2 else 3000, n, n, n))
+    return {"c06_gen": "\n".join(out)}
+
+
+info("C06",
+     technique="Kani/CBMC bounded model checking: FaceModify::apply against reference SGR semantics for every face and "
+               "record; the library's SGR reader against a reference SGR machine on every parameter string up to a "
+               "length; encoder output read back by the payload decoders",
+     outside="SGR parameter strings longer than 2 (quick) / 4 (thorough) bytes; TTYCellWriter end to end (LazyLock "
+             "command automaton); chunking of the written bytes (C03); palette (38;5;n) and 16-colour selections",
+     assumptions=["reference SGR machine of kani/src/c05.rs (ECMA-48 8.3.117 + xterm/kitty extensions)"])
+
+
+# ----------------------------------------------------------------------------------------------
+# C07
+# ----------------------------------------------------------------------------------------------
+SEL_NAMES = {0: "a..b", 1: "a..=b", 2: "a..", 3: "..b", 4: "index a", 5: ".."}
+
+
+@generator
+def gen_c07(ctx):
+    out = ["// generated: surface view chains by concrete base size / transposes / selector forms / operation", ""]
+    ENC_R = ("surface::Shape::view, surface::Surface::view, surface::Surface::transpose, surface::SurfaceIter::nth, "
+             "surface::Surface::get, surface::Shape::offset, surface::Shape::nth")
+    ENC_W = ("surface::Shape::view, surface::SurfaceMut::view_mut, surface::Surface::view_owned, surface::Surface::transpose, "
+             "surface::SurfaceMutIter::nth, surface::SurfaceMut::fill, surface::SurfaceMut::clear, surface::SurfaceMut::fill_with, "
+             "surface::SurfaceMut::insert, surface::SurfaceMut::get_mut")
+    ops = {0: "iter_mut", 1: "fill", 2: "clear", 3: "fill_with", 4: "insert", 5: "get_mut"}
+
+    def b(x):
+        return "true" if x else "false"
+
+    def read(h, w, t0, t1, ks, tier):
+        name = "c07_read_%dx%d_t%d%d_s%d%d%d%d" % (h, w, t0, t1, *ks)
+        out.append("/// @tier %s @timeout 900\n/// @bounds base %dx%d; %sview(rows %s, cols %s)%s then view(rows %s, cols %s); every bound in -(n+3)..=(n+3)\n"
+                   "/// @encodes %s\n#[cfg_attr(kani, kani::proof)]\n#[cfg_attr(kani, kani::unwind(7))]\npub fn %s() {\n"
+                   "    crate::c07_read_case!(%d, %d, %s, %s, %d, %d, %d, %d)\n}\n"
+                   % (tier, h, w, "transpose, " if t0 else "", SEL_NAMES[ks[0]], SEL_NAMES[ks[1]], ", transpose" if t1 else "",
+                      SEL_NAMES[ks[2]], SEL_NAMES[ks[3]], ENC_R, name, h, w, b(t0), b(t1), *ks))
+
+    def write(h, w, t0, t1, ks, op, tier):
+        name = "c07_%s_%dx%d_t%d%d_s%d%d" % (ops[op], h, w, t0, t1, *ks)
+        out.append("/// @tier %s @timeout 900\n/// @bounds base %dx%d; %sview_mut(rows %s, cols %s)%s then %s; every bound in -(n+3)..=(n+3)\n"
+                   "/// @encodes %s\n#[cfg_attr(kani, kani::proof)]\n#[cfg_attr(kani, kani::unwind(18))]\npub fn %s() {\n"
+                   "    crate::c07_write_case!(%d, %d, %s, %s, %d, %d, %d)\n}\n"
+                   % (tier, h, w, "transpose, " if t0 else "", SEL_NAMES[ks[0]], SEL_NAMES[ks[1]], ", transpose" if t1 else "",
+                      ops[op], ENC_W, name, h, w, b(t0), b(t1), ks[0], ks[1], op))
+
+    sel_read = [(0, 0, 0, 0), (1, 4, 5, 2), (2, 3, 4, 1)]
+    for (h, w) in [(2, 3), (3, 4), (0, 2), (1, 1), (3, 0)]:
+        for t0 in (0, 1):
+            for t1 in (0, 1):
+                for ks in sel_read:
+                    quick = (h, w) == (2, 3) and (ks == (0, 0, 0, 0) or (t0, t1) == (0, 0))
+                    quick = quick or ((h, w) in ((0, 2), (1, 1)) and (t0, t1) == (1, 0) and ks == (0, 0, 0, 0))
+                    read(h, w, t0, t1, ks, "quick" if quick else "thorough")
+    for (h, w) in [(2, 3), (3, 4), (1, 1), (0, 2)]:
+        for t0 in (0, 1):
+            for t1 in (0, 1):
+                for ks in [(0, 0), (1, 3), (4, 2)]:
+                    for op in range(6):
+                        quick = (h, w) == (2, 3) and ks == (0, 0) and (t0, t1) in ((0, 0), (1, 1), (0, 1))
+                        quick = quick and not ((t0, t1) == (0, 1) and op not in (0, 4))
+                        write(h, w, t0, t1, ks, op, "quick" if quick else "thorough")
+    return {"c07_gen": "\n".join(out)}
+
+
+info("C07",
+     technique="Kani/CBMC bounded model checking of the real view/transpose/iterate/mutate code against an index-matrix "
+               "model; concrete base sizes, symbolic signed bounds",
+     outside="base surfaces larger than 3x4; chains longer than transpose-view-transpose-view; hand-built strides "
+             "(Shape literals); map/to_owned_surf (thorough)",
+     assumptions=["model = numpy slicing on a plain matrix, using the C08 reference resolver"])
+
+
+# ----------------------------------------------------------------------------------------------
+# C03
+# ----------------------------------------------------------------------------------------------
+@generator
+def gen_c03(ctx):
+    out = ["// generated: tokenizer refinement instances by DFA size and state shape", "use crate::c03::*;", ""]
+    ENC = "decoder::MatcherDecoder::decode_byte, decoder::MatcherDecoder::take_candidate, automata::DFA::transition, automata::DFA::info"
+    CK = {0: "no candidate", 1: "recognised candidate", 2: "raw candidate"}
+
+    def step(s, l, b, r, ck, k, tier, timeout=900):
+        out.append("/// @tier %s @timeout %d\n/// @bounds every DFA with %d states over %d symbols (all transitions, all accepting sets); state: "
+                   "any DFA state, buffer of %d bytes, %d rescheduled bytes, %s%s; any next byte\n/// @encodes %s\n"
+                   "#[cfg_attr(kani, kani::proof)]\n#[cfg_attr(kani, kani::unwind(10))]\npub fn c03_step_s%dl%d_b%dr%dc%dk%d() {\n"
+                   "    step_case::<%d, %d, %d, %d, %d, %d>()\n}\n"
+                   % (tier, timeout, s, l, b, r, CK[ck], (" at size %d" % k) if ck else "", ENC, s, l, b, r, ck, k, s, l, b, r, ck, k))
+
+    def call(s, l, b, r, ck, k, n, tier, timeout=1800):
+        out.append("/// @tier %s @timeout %d\n/// @bounds every DFA with %d states over %d symbols; state: buffer %d, rescheduled %d, %s%s; "
+                   "one decode call over every %d byte input\n/// @encodes decoder::MatcherDecoder::decode, %s\n"
+                   "#[cfg_attr(kani, kani::proof)]\n#[cfg_attr(kani, kani::unwind(10))]\npub fn c03_call_s%dl%d_b%dr%dc%dk%d_n%d() {\n"
+                   "    call_case::<%d, %d, %d, %d, %d, %d, %d>()\n}\n"
+                   % (tier, timeout, s, l, b, r, CK[ck], (" at size %d" % k) if ck else "", n, ENC, s, l, b, r, ck, k, n, s, l, b, r, ck, k, n))
+
+    quick_shapes = [(0, 0, 0, 0), (1, 0, 0, 0), (1, 0, 1, 1), (2, 1, 1, 1), (2, 0, 1, 2), (3, 1, 1, 2), (2, 2, 0, 0), (2, 1, 2, 1)]
+    for (b, r, ck, k) in quick_shapes:
+        step(2, 2, b, r, ck, k, "quick")
+    shapes = []
+    for b in range(0, 4):
+        for r in range(0, 3):
+            shapes.append((b, r, 0, 0))
+            for k in range(1, b + 1):
+                shapes.append((b, r, 1, k))
+                shapes.append((b, r, 2, k))
+    for (b, r, ck, k) in shapes:
+        if (b, r, ck, k) not in quick_shapes:
+            step(2, 2, b, r, ck, k, "thorough")
+        if ck != 2 and r <= 1:
+            step(3, 2, b, r, ck, k, "thorough", 1800)
+            step(2, 3, b, r, ck, k, "thorough", 1800)
+    for (b, r, ck, k, n) in [(0, 0, 0, 0, 0), (0, 0, 0, 0, 1), (1, 0, 1, 1, 0), (1, 1, 1, 1, 1), (0, 1, 0, 0, 2), (2, 2, 1, 1, 1)]:
+        call(2, 2, b, r, ck, k, n, "quick" if n <= 1 and r <= 1 else "thorough")
+    for (b, r, ck, k, n) in [(1, 0, 1, 1, 2), (2, 1, 1, 2, 2), (0, 2, 0, 0, 3), (3, 2, 1, 2, 2)]:
+        call(2, 2, b, r, ck, k, n, "thorough")
+    for (s, l, n, tier) in [(2, 2, 3, "quick"), (3, 2, 4, "thorough"), (2, 2, 5, "thorough"), (3, 3, 4, "thorough")]:
+        out.append("/// @tier %s @timeout 1800\n/// @bounds reference tokenizer only (no crate code): every DFA with %d states over %d symbols, every "
+                   "input of %d symbols, every split into three reads\n/// @encodes (model) c03::Model::step, c03::Model::decode\n"
+                   "#[cfg_attr(kani, kani::proof)]\n#[cfg_attr(kani, kani::unwind(%d))]\npub fn c03_model_chunks_s%dl%d_n%d() {\n"
+                   "    chunk_case::<%d, %d, %d>()\n}\n" % (tier, s, l, n, 2 * n + 4 if 2 * n + 4 > 10 else 10, s, l, n, s, l, n))
+        out.append("/// @tier %s @timeout 1800\n/// @bounds reference tokenizer only (no crate code): every DFA with %d states over %d symbols, every "
+                   "input of %d symbols; items == leftmost-longest tokenisation by definition\n/// @encodes (model) c03::Model::step\n"
+                   "#[cfg_attr(kani, kani::proof)]\n#[cfg_attr(kani, kani::unwind(%d))]\npub fn c03_model_munch_s%dl%d_n%d() {\n"
+                   "    munch_case::<%d, %d, %d>()\n}\n" % (tier, s, l, n, 2 * n + 4 if 2 * n + 4 > 10 else 10, s, l, n, s, l, n))
+    return {"c03_gen": "\n".join(out)}
+
+
+info("C03",
+     technique="Kani/CBMC bounded model checking: refinement of the real tokenizer (decode_byte step and decode call) to a "
+               "reference tokenizer over a fully symbolic small DFA; chunk independence and leftmost-longest decided on "
+               "the reference tokenizer",
+     outside="DFAs larger than 3 states / 3 symbols (production automata have 650/16/11 states: the driver is generic in "
+             "the table, its code does not depend on the table size); buffers longer than 3 bytes (32 byte inline "
+             "SmallVec never spills in the instances); model-level inputs longer than 5 symbols; unix.rs read loop",
+     assumptions=["raw-chunk convention: with no candidate the bytes before the failing byte form one raw item",
+                  "Tokenizer hook builds DFAStateInfo.is_terminal as NFA::compile does (no outgoing edge)"])
